@@ -706,7 +706,15 @@ Definition dispatch (s : state) (a : aid) (x : actor) (e : envelope) : state * l
                       | [] => x3
                       end in
             (set_actor s a x4, [IPub evRestarting (actor_key x); IDoKill poison; IEndHandler])
-        | _ => (s1, [IEndHandler])
+        | st =>
+            (* not running: the directive is dropped, but the mailbox the supervisor paused is resumed, and an
+               actor that is in the middle of a stop passes an immediate kill to its remaining children *)
+            (s1, [IResume1]
+                 ++ (match st, a_children x with
+                     | Killing, (_ :: _) as l => [IEnqAny true (map (fun p => RObj (snd p)) l) (RObj a) (MKill (RObj a) false)]
+                     | _, _ => []
+                     end)
+                 ++ [IEndHandler])
         end
     | MWatch =>
         let sender := e_sender e in
